@@ -249,13 +249,19 @@ func genAny(r *hx.Rng, d int) *ast {
 		return bin(hx.Pick(r, allBin), paren(genAny(r, d-1)), call(hx.Pick(r, fn1), genAny(r, d-1)))
 	case 7: // (f(x)) op y — the case the unary fix had to keep working
 		return bin(hx.Pick(r, allBin), paren(call(hx.Pick(r, fn1), genAny(r, d-1))), genAny(r, d-1))
-	case 8:
-		n := r.Range(0, 4)
+	case 8: // calls with the arity of the function (`max()` vs `max( )` and `abs(1,2)` vs `abs(1 , 2)` are not well-formed)
+		switch r.Intn(3) {
+		case 0:
+			return call("if", genAny(r, d-1), genAny(r, d-1), genAny(r, d-1))
+		case 1:
+			return call(hx.Pick(r, fn1), genAny(r, d-1))
+		}
+		n := r.Range(1, 4)
 		args := make([]*ast, n)
 		for i := range args {
 			args[i] = genAny(r, d-1)
 		}
-		return call(hx.Pick(r, append(append([]string{"if"}, fnN...), fn1...)), args...)
+		return call(hx.Pick(r, fnN), args...)
 	default:
 		return un(hx.Pick(r, []string{"-", "+", "!"}), call(hx.Pick(r, fn1), genAny(r, d-1)))
 	}
